@@ -102,8 +102,13 @@ def gen_invocation(rng, proj):
         inv['exclude_suites'] = [rng.choice(['x', 'y', 'p:x', ':y'])]
     elif k < 0.4:
         inv['exclude'] = [rng.choice(['t0', 't1', 'p:t1'])]
-    elif k < 0.5:
+    elif k < 0.48:
         inv['args'] = sorted(set(rng.choice(['t0', 't1', 't2', 'p:t1', ':t0']) for _ in range(2)))
+    elif k < 0.72:
+        # overlapping test-name arguments: the same test is matched by several of them
+        a = 't%d' % rng.randrange(n)
+        inv['args'] = rng.choice([[a, 't*'], ['p:' + a, a, '*' + a[1:]], ['p:', a], [a, a], [':' + a, a], ['t?', a],
+                                  ['*', 'p:*'], [a, 'p:t*', '?' + a[1:]]])
     if rng.random() < 0.3:
         m = rng.randint(1, min(n, 4))
         inv['slice'] = '%d/%d' % (rng.randint(1, m), m)
@@ -123,11 +128,15 @@ def sel_flags(inv):
     return a + list(inv['args'])
 
 
+def command_line(inv, k=0):
+    return ['test', '-C', 'b', '--no-rebuild', '--num-processes', str(inv['jobs']), '--repeat', str(inv['repeat']),
+            '--maxfail', str(inv['maxfail']), '-t', '0.3', '--logbase', 'L%d' % k] + sel_flags(inv)
+
+
 def run_invocation(d, k, inv, with_list):
     log = os.path.join(d, 'ev%d.log' % k)
     open(log, 'w').close()
-    args = ['test', '-C', 'b', '--no-rebuild', '--num-processes', str(inv['jobs']), '--repeat', str(inv['repeat']),
-            '--maxfail', str(inv['maxfail']), '-t', '0.3', '--logbase', 'L%d' % k] + sel_flags(inv)
+    args = command_line(inv, k)
     try:
         r = meson_cli(args, cwd=d, env={'C12_LOG': log}, timeout=8 if inv.get('probe') else 120)
         rc, out = r.returncode, r.stdout + (r.stderr if inv.get('probe') else '')
@@ -249,7 +258,8 @@ def run_cli(ctx, built, thorough, only=None):
     for ji, ((pi, k, inv, wl), ob) in enumerate(zip(jobs, obs)):
         proj, ser = projs[pi], order[pi]
         byname = {t['name']: t for t in proj['tests']}
-        rep_base = {'cli': {'project': proj, 'invocation': inv}}
+        rep_base = {'cli': {'project': proj, 'invocation': inv}, 'meson.build': meson_build(proj),
+                    'command_line': 'C12_LOG=<log> meson ' + ' '.join(command_line(inv))}
         ident = 'C12:cli:' + json.dumps({'p': meson_build(proj), 'i': inv}, sort_keys=True)
         viol = lambda what, extra=None: ctx.violation(ident, what, dict(rep_base, failure=what, observed=extra))
         ctx.count(('cli', ident))
@@ -278,9 +288,33 @@ def run_cli(ctx, built, thorough, only=None):
                                           % ('is an error' if msel_err else msel, ob['rc'], ob['list'][0], listed)})
             elif not msel_err and msel != listed:
                 ctx.disagreements.append({'cli': rep_base['cli'], 'what': '--list prints %r, model selects %r' % (listed, msel)})
-        if impl_sel_err:
+        # ---------- the selection computed from the command line alone (no meson code, no model):
+        # the SET of tests surviving the suite / exclude filters and matched by ANY test-name argument
+        ser_py = sorted(proj['tests'], key=lambda t: -t['prio'])
+        base = O.independent_selection([(t['name'], 'p', ['p:' + x for x in t['suites']] or ['p']) for t in ser_py], 'p',
+                                       inv['include'], inv['exclude_suites'], inv['exclude'], inv['args'], None)
+        if base is None:
+            if ob['events']:
+                viol('a test-name argument matches no test, yet tests were started: %r' % ob['events'][:6])
             continue
-        selected = listed
+        base = [n for _, n in base]
+        if inv['slice']:
+            i_, k_ = (int(x) for x in inv['slice'].split('/'))
+            if k_ > len(base):
+                if ob['events']:
+                    viol('more slices than selected tests, yet tests were started: %r' % ob['events'][:6])
+                continue
+            # which tests a slice holds depends on the serialisation order: take meson's own listing,
+            # which must be duplicate-free and inside the selection (the partition is checked separately)
+            if len(set(listed)) != len(listed) or not set(listed) <= set(base):
+                viol('--list --slice %s prints %r; the command line selects the set %r' % (inv['slice'], listed, base))
+                continue
+            selected = listed
+        else:
+            selected = base
+            if impl_sel_err:
+                viol('the command line selects %r but meson test refuses (exit %r)' % (base, ob['rc']))
+                continue
         nsel = len(selected)
         if nsel == 0:
             if ob['events'] or ob['rc'] != 0:
@@ -289,6 +323,12 @@ def run_cli(ctx, built, thorough, only=None):
         nruns += 1
         pos = {n: i for i, n in enumerate(selected)}
         R = inv['repeat']
+        results = [e['result'] for e in ob['testlog']]
+        failc = sum(1 for r in results if r in ('FAIL', 'ERROR', 'INTERRUPT'))
+        cut = (inv['maxfail'] > 0 and failc >= inv['maxfail']) or (R > 1 and failc > 0)
+        # ---------- oracle: every selected test has exactly `repeat` start records
+        for b in O.start_count_clauses(selected, R, [(e[1], int(e[2])) for e in ob['events'] if e[0] == 's'], cut):
+            viol('start records: ' + b, {'start_records': [' '.join(e) for e in ob['events'] if e[0] == 's'], 'selected': selected})
         # ---------- event log -> runner ids
         evl, bad_ids = [], []
         for e in ob['events']:
@@ -425,6 +465,7 @@ def replay(ctx, cli):
     n = run_cli(ctx, built, False, only=cli)
     print('meson.build:\n' + meson_build(cli['project']))
     print('options:', json.dumps(cli['invocation']))
+    print('command line: C12_LOG=<log> meson ' + ' '.join(command_line(cli['invocation'])))
     print('property clauses failing on the implementation:')
     for v in ctx.violations:
         print('  -', v['what'][:600])
